@@ -3,6 +3,7 @@ pub mod model;
 pub mod util;
 pub mod rqcheck;
 pub mod runner;
+pub mod sqlbind;
 pub mod tape;
 
 pub mod prop;
